@@ -30,7 +30,8 @@ def initSuite (_suite : String) (opts : List (String × String)) : SuiteState :=
     cacheSize := cache
     splits := splits
     etcdCompat := (opt opts "compat") != some "0"
-    ttl := ((opt opts "ttl").map atou).getD 3600000 }
+    ttl := ((opt opts "ttl").map atou).getD 3600000
+    shuffle := (opt opts "splits").isSome && (opt opts "splits") != some "-" }
   let init := ((opt opts "init").map atou).getD 1000
   { cfg := cfg
     b := { ring := Ring.new cache, dealt := init, committed := init }
@@ -145,12 +146,16 @@ def writeLine (verb : String) : WriteRes → String
   | .notFound hdr => s!"{verb} nf {hdr}"
   | .error e => s!"{verb} err {errStr e}"
 
+def insertStr (x : String) : List String → List String
+  | [] => [x]
+  | y :: ys => if x < y then x :: y :: ys else y :: insertStr x ys
+
 def streamStr (r : StreamRes) : String :=
-  let bs := String.join (r.batches.map (fun b => s!"{b.1}:{kvsStr b.2};"))
+  let entries := (r.batches.flatMap (fun b => b.2.map (fun kv => s!"{kvStr kv}|{b.1}"))).foldr insertStr []
   let e := match r.endErr with
     | none => "-"
     | some e => errStr e
-  s!"{bs}end {r.endHdr} {e} last; ends=1"
+  s!"{joinOr entries ","} end {r.endHdr} {e} last; ends=1"
 
 def drainWatcher (w : Watcher) : Nat → List Event → Watcher × List Event
   | 0, acc => (w, acc)
